@@ -108,7 +108,20 @@ def check_before_store(ctx):
     defs = dom.assignments_to(g, merged)
     srcs = [unparse(d.ast.value) for d in defs if isinstance(d.ast, ast.Assign)]
     p = f.params[1] if len(f.params) > 1 else 'val'
-    res.check(any(s.startswith('replace_key_underline_with_hyphen(') and p in s for s in srcs), 'R-DOM.check-before-store', f.fq,
+    from_normaliser = any(s.startswith('replace_key_underline_with_hyphen(') and p in s for s in srcs)
+    if not from_normaliser and srcs in (['{}'], ['dict()']):
+        # an empty dictionary filled entry by entry from the normalised input: `for k, v in replace_key_underline_with_hyphen(val).items(): ... merged[k] = v`
+        fills = [n for n in g.stmt_nodes() if n.kind == 'stmt' and isinstance(n.ast, ast.Assign) and len(n.ast.targets) == 1 and isinstance(n.ast.targets[0], ast.Subscript)
+                 and unparse(n.ast.targets[0].value) == merged]
+        ok_fill = bool(fills)
+        for n in fills:
+            k_, v_ = unparse(n.ast.targets[0].slice), unparse(n.ast.value)
+            lps = [t for t, lab in dom.guards_of(g, n) if t.kind == 'for' and lab == 'loop' and isinstance(t.stmt.target, ast.Tuple) and
+                   [unparse(e_) for e_ in t.stmt.target.elts] == [k_, v_]]
+            src_ = unparse(dom.expand(g, lps[0].stmt.iter, lps[0])) if lps else ''
+            ok_fill = ok_fill and bool(lps) and src_.startswith('replace_key_underline_with_hyphen(') and src_.endswith('.items()') and p in src_
+        from_normaliser = ok_fill
+    res.check(from_normaliser, 'R-DOM.check-before-store', f.fq,
               "the new entries are the caller's dictionary with `_` mapped to `-` in the keys", fail_detail=str(srcs), key='R-DOM.check-before-store|source')
     # callers other than __init__ pass a one-entry dict display (premise for accepting the removal before the checks)
     from ..engine import get_cg
@@ -280,6 +293,48 @@ def _only_for_none_values(g, node, hit) -> bool:
     return False
 
 
+def _is_name_table(g, fnode, name: str, at, depth=0) -> bool:
+    """the local `name` holds, at node `at`, a dictionary {a.name: a for a in self.TYPE.get_xsd_attributes()}: built by such a comprehension, or from `{}` by
+    an unconditional loop over the attribute table that stores each attribute under its name and nothing else, or read from a class-level registry
+    (`Cls.T.get(k)` / `Cls.T[k]`) every store into which, in this function, is such a dictionary under the same key"""
+    ATTRS = 'self.TYPE.get_xsd_attributes()'
+    ds = dom.reaching_defs(g, name, at)
+    if not ds or depth > 1:
+        return False
+    for d in ds:
+        v = d.ast.value if isinstance(d.ast, ast.Assign) and len(d.ast.targets) == 1 else None
+        if isinstance(v, ast.DictComp) and len(v.generators) == 1 and not v.generators[0].ifs and unparse(v.generators[0].iter) == ATTRS and \
+                unparse(v.key) == f"{unparse(v.generators[0].target)}.name" and unparse(v.value) == unparse(v.generators[0].target):
+            continue
+        if isinstance(v, ast.Dict) and not v.keys:
+            fills = [n for n in g.stmt_nodes() if n.kind == 'stmt' and isinstance(n.ast, ast.Assign) and len(n.ast.targets) == 1 and isinstance(n.ast.targets[0], ast.Subscript)
+                     and unparse(n.ast.targets[0].value) == name]
+            others = [n for n in dom.list_mutation_nodes(g, name) if n not in fills]
+            good = bool(fills) and not others
+            for n in fills:
+                val = unparse(n.ast.value)
+                gs = dom.guards_of(g, n)
+                lp = [t for t, lab in gs if t.kind == 'for' and lab == 'loop' and unparse(t.stmt.target) == val and unparse(dom.expand(g, t.stmt.iter, t)) == ATTRS]
+                tests = [t for t, lab in gs if t.kind == 'test' and not any(t is x for x, _ in dom.guards_of(g, d))]
+                good = good and bool(lp) and unparse(n.ast.targets[0].slice) == f"{val}.name" and not tests
+            if good:
+                continue
+            return False
+        reg = key = None
+        if isinstance(v, ast.Call) and isinstance(v.func, ast.Attribute) and v.func.attr == 'get' and len(v.args) == 1 and isinstance(v.func.value, ast.Attribute):
+            reg, key = unparse(v.func.value), unparse(v.args[0])
+        elif isinstance(v, ast.Subscript) and isinstance(v.value, ast.Attribute):
+            reg, key = unparse(v.value), unparse(v.slice)
+        if reg is not None:
+            stores = [n for n in g.stmt_nodes() if n.kind == 'stmt' and isinstance(n.ast, ast.Assign) and len(n.ast.targets) == 1 and isinstance(n.ast.targets[0], ast.Subscript)
+                      and unparse(n.ast.targets[0].value) == reg]
+            if stores and all(unparse(n.ast.targets[0].slice) == key and isinstance(n.ast.value, ast.Name) and _is_name_table(g, fnode, n.ast.value.id, n, depth + 1)
+                              for n in stores):
+                continue
+        return False
+    return True
+
+
 CACHE_DECORATORS = {'lru_cache', 'cache', 'functools.lru_cache', 'functools.cache', 'cached', 'memoize', 'memoized'}
 PLAIN_DECORATORS = {'property', 'staticmethod', 'classmethod', 'abstractmethod', 'abc.abstractmethod'}
 
@@ -340,6 +395,15 @@ def check_attribute_gate(ctx):
                         src += ' ' + ' '.join(unparse(d.ast.value) for d in dom.assignments_to(g, nm) if isinstance(d.ast, ast.Assign))
                 if '.name' in src and 'self.TYPE.get_xsd_attributes()' in src:
                     ok = len(dom.guards_of(g, r)) == 1
+    # the same gate over a dictionary {attribute name: attribute} of the type's attribute table (built in place or taken from a class-level registry that
+    # only ever receives such dictionaries)
+    table_gate = None
+    for r in raises:
+        for t, e_, _txt, lab in dom.guard_views(g, r):
+            if lab == 'T' and isinstance(e_, ast.Compare) and isinstance(e_.ops[0], ast.NotIn) and unparse(e_.left) == name_p and isinstance(e_.comparators[0], ast.Name) \
+                    and _is_name_table(g, f.node, e_.comparators[0].id, t) and len(dom.guards_of(g, r)) == 1:
+                ok = True
+                table_gate = (e_.comparators[0].id, t)
     res.check(ok, 'R-DOM.attribute-gate', f.fq, "an undeclared name is rejected: `name not in [a.name for a in self.TYPE.get_xsd_attributes()] -> raise XSDWrongAttribute` under no other condition",
               key='R-DOM.attribute-gate|unknown-name')
     gates = [n for n in g.stmt_nodes() if n.kind == 'return' and isinstance(n.ast.value, ast.Call) and [unparse(a) for a in n.ast.value.args] == [value_p]]
@@ -361,6 +425,12 @@ def check_attribute_gate(ctx):
             if isinstance(names_expr, ast.ListComp) and len(names_expr.generators) == 1 and not names_expr.generators[0].ifs and \
                     unparse(names_expr.elt) == f"{unparse(names_expr.generators[0].target)}.name" and unparse(names_expr.generators[0].iter) == unparse(fexpr.value):
                 good = True
+    if table_gate is not None:
+        for r in gates:
+            fexpr = r.ast.value.func
+            if isinstance(fexpr, ast.Subscript) and unparse(fexpr.value) == table_gate[0] and unparse(fexpr.slice) == name_p and \
+                    g.path_avoiding(g.entry, r, avoid=[table_gate[1]]) is None and _is_name_table(g, f.node, table_gate[0], r):
+                good = True
     res.check(good, 'R-DOM.attribute-gate', f.fq, "a declared name is validated by calling the matching attribute (its simple type) on the value",
               key='R-DOM.attribute-gate|value-check')
     others = [n for n in g.stmt_nodes() if n.kind == 'return' and n not in gates]
@@ -368,8 +438,23 @@ def check_attribute_gate(ctx):
               key='R-DOM.attribute-gate|other-return')
     # XSDAttribute.__call__ applies type_; type_ evaluates the declared type name
     call = sm.func('XSDAttribute', '__call__', T.M_ATTR)
-    rets = [n for n in ast.walk(call.node) if isinstance(n, ast.Return)]
-    res.check(len(rets) == 1 and unparse(rets[0].value) == f"self.type_({call.params[1]})", 'R-DOM.attribute-gate', call.fq,
+    def applies_type(fn, vparam, depth=0) -> bool:
+        """every normal exit of fn returns self.type_(v), directly or through a helper of the same class that does (e.g. a typed cache in front of it)"""
+        gg = cfg_of(fn.node)
+        if not all(pn.kind == 'return' for pn, _ in gg.pred[gg.exit]):
+            return False
+        for r_ in [n for n in ast.walk(fn.node) if isinstance(n, ast.Return)]:
+            v_ = r_.value
+            if v_ is not None and unparse(v_) == f"self.type_({vparam})":
+                continue
+            if isinstance(v_, ast.Call) and isinstance(v_.func, ast.Attribute) and unparse(v_.func.value) == 'self' and [unparse(a) for a in v_.args] == [vparam] and \
+                    not v_.keywords and depth < 2 and fn.cls is not None and v_.func.attr in fn.cls.methods and fn.cls.methods[v_.func.attr] is not fn:
+                h_ = fn.cls.methods[v_.func.attr]
+                if len(h_.params) == 2 and applies_type(h_, h_.params[1], depth + 1):
+                    continue
+            return False
+        return True
+    res.check(applies_type(call, call.params[1]), 'R-DOM.attribute-gate', call.fq,
               "calling an attribute applies its declared simple type to the value", key='R-DOM.attribute-gate|call')
     ty = sm.func('XSDAttribute', 'type_', T.M_ATTR)
     txt = unparse(ty.node)
@@ -476,6 +561,20 @@ def verbatim_serialisation(ctx):
               fail_detail=short(c), key='R-DOM.attributes-verbatim|tag')
     d = c.args[1] if len(c.args) > 1 else next((k.value for k in c.keywords if k.arg == 'attrib'), None)
     ok = False
+    if isinstance(d, ast.Name):
+        # a local: one definition is followed; a local that is the stored dictionary on one path and its str()-converted copy on another (conversion only
+        # when some value is not a str) is an optimisation whose equivalence depends on the values - not decided here
+        g_ = cfg_of(f.node)
+        at = next((n for n in g_.stmt_nodes() if any(x is c for e in n.exprs() for x in ast.walk(e))), None)
+        ds = dom.reaching_defs(g_, d.id, at) if at is not None else []
+        vals = [x.ast.value for x in ds if isinstance(x.ast, ast.Assign)]
+        if len(vals) == 1:
+            d = vals[0]
+        elif len(vals) > 1 and len(vals) == len(ds) and all(unparse(v_) in ('self.attributes', 'self._attributes') or isinstance(v_, ast.DictComp) for v_ in vals) and \
+                not any(isinstance(x, (ast.Subscript, ast.Attribute)) and isinstance(getattr(x, 'ctx', None), (ast.Store, ast.Del)) and
+                        unparse(getattr(x, 'value', x)) in (d.id, 'self.attributes', 'self._attributes') for x in ast.walk(f.node)):
+            raise AnalysisError(f"{f.fq}: the attribute dictionary handed to ET.Element is `{d.id}`, which is the stored dictionary on one path and a converted copy on "
+                                "another; whether both agree depends on the values (idiom not understood)")
     if isinstance(d, ast.DictComp) and len(d.generators) == 1:
         gen = d.generators[0]
         if isinstance(gen.target, ast.Tuple) and len(gen.target.elts) == 2 and not gen.ifs:
